@@ -10,6 +10,7 @@
 -/
 import RbModel.Lemmas.BufZipper
 import RbModel.Lemmas.GsubSingleSpec
+import RbModel.Lemmas.GsubAlternateSpec
 
 namespace RbModel.Buf
 
@@ -282,6 +283,82 @@ example : exLookup.subtables.all Subtable.isSingle = true := by decide
 example : ∀ x ∈ exCtx.buf.info.take exCtx.buf.len, checkGlyphProperty exCtx.font x exLookup.props = !ignored exCtx.font exLookup.props (toG x) := by decide
 example : (match applyString exCtx exLookup 3 with
     | .ok c' => (c'.buf.info.take c'.buf.len).map (·.gid) == [11, 2, 1]
+    | .error _ => false) = true := by decide
+
+end RbModel.Gsub
+
+/-! ## Part 3: alternate substitution (GSUB type 3) — the feature VALUE selects the alternate
+
+Same refinement for lookups all of whose subtables are alternate substitutions, outside the `rand` feature: the glyph at
+a position where the feature is on is replaced by the `k`-th alternate, `k` being the value the glyph's mask carries for
+the lookup (`(lookup_mask & mask) >> trailing_zeros(lookup_mask)`); value 0, a value beyond the set, an uncovered or
+ignored glyph leave it alone.  `hshort`: alternate sets have at most 65535 members (their count is a 16-bit field). -/
+namespace RbModel.Gsub
+open RbModel RbModel.Buf RbModel.Spec.Subst
+
+theorem toG_posInfo (f : Font) (l : Lookup) (lm : Nat) (sub : Info → Option Nat) (subG : G → Option Nat) (x : Info)
+    (hsub : sub x = subG (toG x))
+    (hsync : checkGlyphProperty f x l.props = !ignored f l.props (toG x)) :
+    toG (posInfo f lm l.props sub x) = specStepP f l lm subG (toG x) := by
+  unfold posInfo specStepP
+  rw [hsync, hsub]
+  have hm : (toG x).mask = x.mask := rfl
+  rw [hm]
+  by_cases hc : (x.mask &&& lm != 0 && !ignored f l.props (toG x)) = true
+  · simp only [hc, if_true]
+    cases subG (toG x) with
+    | none => rfl
+    | some s => simp [toG, setGlyphProps]
+  · simp only [hc, Bool.false_eq_true, if_false]
+
+theorem C06_alternate_subst_refines_spec (l : Lookup) (hall : l.subtables.all Subtable.isAlternate = true)
+    (hshort : AltSetsShort l.subtables)
+    (c : Ctx) (fuel level : Nat) (hrnd : c.random = false) (hlm : c.lookupMask < 2 ^ 32)
+    (hsu : c.buf.successful = true) (hlen : c.buf.len ≤ c.buf.info.length) (hf : c.buf.len ≤ fuel)
+    (hgid : ∀ x ∈ c.buf.info.take c.buf.len, x.gid < 65536)
+    (hsync : ∀ x ∈ c.buf.info.take c.buf.len,
+      checkGlyphProperty c.font x l.props = !ignored c.font l.props (toG x)) :
+    ∃ c', applyString c l fuel = .ok c' ∧ c'.buf.len = c.buf.len ∧
+      (c'.buf.info.take c'.buf.len).map toG
+        = applyLookupFwd c.font level l c.lookupMask fuel ((c.buf.info.take c.buf.len).map toG) 0 := by
+  obtain ⟨c', hrun, hl, hil, _, _, hq⟩ :=
+    applyString_pos l (altSubst? c.lookupMask l.subtables) (alternate_not_reverse l hall) c
+      (actsAs_alternate l hall c.lookupMask) hrnd fuel hsu hlen hf
+  refine ⟨c', hrun, hl, ?_⟩
+  -- the specification side on the projected string: every glyph still to be visited is an original one (16-bit id)
+  rw [applyLookupFwd_pos_guarded c.font level l c.lookupMask (altSubstG? c.lookupMask l.subtables) (fun g => g.gid < 65536)
+        (fun gs i g hg hgid' => firstSubtable_alternate c.font level l.props c.lookupMask hlm gs i g hg hgid' l.subtables hall hshort)
+        fuel _ 0
+        (by
+          intro q g _ hg
+          have hmem : g ∈ (c.buf.info.take c.buf.len).map toG := List.mem_of_getElem? hg
+          obtain ⟨x, hx, rfl⟩ := List.mem_map.mp hmem
+          exact hgid x hx)
+        (by simp; omega) (Nat.zero_le _)]
+  simp only [List.take_zero, List.nil_append, List.drop_zero, List.map_map]
+  rw [hl]
+  apply List.ext_getElem?
+  intro q
+  simp only [List.getElem?_map, List.getElem?_take, hq]
+  by_cases hql : q < c.buf.len
+  · simp only [hql, if_true, Option.map_map]
+    cases hx : c.buf.info[q]? with
+    | none => rfl
+    | some x =>
+      have hmem : x ∈ c.buf.info.take c.buf.len := by
+        rw [List.mem_iff_getElem?]
+        exact ⟨q, by simp [List.getElem?_take, hql, hx]⟩
+      simp only [Option.map_some, Function.comp]
+      rw [toG_posInfo c.font l c.lookupMask _ (altSubstG? c.lookupMask l.subtables) x rfl (hsync x hmem)]
+  · simp [hql]
+
+/-! non-vacuity: feature value 2 (mask bits 4-5 hold the value, lookup mask 0x30) picks the second alternate -/
+def exAltLookup : Lookup := { props := 0, subtables := [.alternate [1] [[7, 8, 9]]] }
+def exAltBuf : Buf := { info := [⟨1, 0x20, 0, GP.BASE_GLYPH, 0⟩, ⟨1, 0x10, 1, GP.BASE_GLYPH, 0⟩, ⟨1, 0, 2, GP.BASE_GLYPH, 0⟩], len := 3 }
+def exAltCtx : Ctx := { font := exFont, lookupMask := 48, buf := exAltBuf }
+example : exAltLookup.subtables.all Subtable.isAlternate = true := by decide
+example : (match applyString exAltCtx exAltLookup 3 with
+    | .ok c' => (c'.buf.info.take c'.buf.len).map (·.gid) == [8, 7, 1]
     | .error _ => false) = true := by decide
 
 end RbModel.Gsub
